@@ -58,7 +58,12 @@ func (packer *MessagePacker) ChunkAndWrite(writer io.Writer, csid int, typeid ui
 	if bodyLen <= LocalChunkSize {
 		// 如果一个chunk就够放（大部分信令都是这种情况），我们直接在buffer前面预留的空间写入chunk header内容，避免造成拷贝
 		writeSingleChunkHeader(packer.b.Bytes(), csid, bodyLen, typeid, streamid)
-		_, err := packer.b.WriteTo(writer)
+		// 注意，writer 可能只是把内存块放入发送队列（比如设置了 WriteChanSize 的 connection），稍后才真正发送，
+		// 而 packer 的 buffer 会被下一条信令复用，所以这里交给 writer 的必须是一份拷贝
+		out := make([]byte, packer.b.Len())
+		copy(out, packer.b.Bytes())
+		packer.b.Reset()
+		_, err := writer.Write(out)
 		return err
 	}
 
